@@ -237,6 +237,11 @@ func (t *recTracer) QueueEnd(m am.Api) { t.r.push(Event{Kind: "QE"}) }
 
 // NewRunner builds the real machine for a schema line.
 func NewRunner(sch *Schema, timeout time.Duration) (*Runner, error) {
+	return NewRunnerId(sch, timeout, "vm")
+}
+
+// NewRunnerId: NewRunner with a chosen machine id (several machines, one debugger).
+func NewRunnerId(sch *Schema, timeout time.Duration, id string) (*Runner, error) {
 	r := &Runner{Sch: sch, counts: map[string]int{}, Timeout: timeout,
 		ctxs: map[int]context.Context{}, cancels: map[int]context.CancelFunc{}, uctx: map[int]context.Context{}}
 	schema := am.Schema{}
@@ -248,7 +253,7 @@ func NewRunner(sch *Schema, timeout time.Duration) (*Runner, error) {
 	ctx, cancel := context.WithCancel(context.Background())
 	r.cancel = cancel
 	tr := &recTracer{TracerNoOp: &am.TracerNoOp{Id: "verif"}, r: r}
-	m := am.New(ctx, schema, &am.Opts{Id: "vm", HandlerTimeout: timeout,
+	m := am.New(ctx, schema, &am.Opts{Id: id, HandlerTimeout: timeout,
 		DontLogStackTrace: true, Tracers: []am.Tracer{tr}})
 	if err := m.VerifyStates(am.S(sch.Names)); err != nil {
 		cancel()
